@@ -75,10 +75,15 @@ func c09Run(r *vrep.R, c c09Case) {
 	if c.Fn == "keygen" {
 		fn = EvaluateRetryParticipantsForKeyGeneration
 	}
-	got, err := fn(seats, c.Seed, c.Retry, c.Requested)
 	fp := fmt.Sprintf("%s seats=%s requested=%d seed=%d retry=%d", c.Fn, c.Seats, c.Requested, c.Seed, c.Retry)
 	report := func(kind, what string) {
 		r.ViolationMin(c.Fn+":"+kind, len(c.Seats)*1000+int(c.Requested)*10+int(c.Retry), fp, what, c)
+	}
+	var got []chain.Address
+	var err error
+	if p, stack := vrep.Guard(func() { got, err = fn(seats, c.Seed, c.Retry, c.Requested) }); p != nil {
+		report("panic", fmt.Sprintf("panic: %v\n%s", p, stack))
+		return
 	}
 	if c09Str(seats) != orig {
 		report("input-mutated", "the input seat list was modified")
@@ -155,7 +160,11 @@ func TestVerifC09(t *testing.T) {
 						r.Distinct(fmt.Sprintf("s|%s|%d|%d|%d", seats, req, s, retry))
 					}
 				}
-				got, err := EvaluateRetryParticipantsForSigning(c09Seats(seats), int64(s), 0, req)
+				var got []chain.Address
+				var err error
+				if p, _ := vrep.Guard(func() { got, err = EvaluateRetryParticipantsForSigning(c09Seats(seats), int64(s), 0, req) }); p != nil {
+					continue
+				}
 				if err == nil {
 					shuffles[c09Str(got)] = true
 				}
@@ -220,7 +229,11 @@ func c09Keygen(r *vrep.R, seats string, req uint, seed int64) int {
 		c := c09Case{"keygen", seats, req, seed, retry}
 		c09Run(r, c)
 		evals++
-		got, err := EvaluateRetryParticipantsForKeyGeneration(c09Seats(seats), seed, retry, req)
+		var got []chain.Address
+		var err error
+		if p, _ := vrep.Guard(func() { got, err = EvaluateRetryParticipantsForKeyGeneration(c09Seats(seats), seed, retry, req) }); p != nil {
+			break // reported by c09Run
+		}
 		if n >= 2 {
 			r.Distinct(fmt.Sprintf("k|%s|%d|%d|%d", seats, req, seed, retry))
 		}
